@@ -38,12 +38,45 @@ def table_scan_helper(repo, module, call):
     if not (isinstance(call, ast.Call) and isinstance(call.func, ast.Name) and len(call.args) == 1 and not call.keywords):
         return None
     r = repo.resolve(module, call.func.id)
-    if not r or r[0] != 'func':
+    h = None
+    if r and r[0] == 'func':
+        h = r[1]
+    else:
+        # a function nested in the categoriser
+        for fd_ in module.functions.values():
+            for x in ast.walk(fd_.node):
+                if isinstance(x, ast.FunctionDef) and x is not fd_.node and x.name == call.func.id and not x.decorator_list:
+                    from .model import FuncDef as _FD
+                    h = _FD(module, '%s.%s' % (fd_.qual, x.name), x)
+    if h is None:
         return None
-    h = r[1]
     body = strip_doc(h.node.body)
     params = h.params()
-    if len(body) != 1 or not isinstance(body[0], ast.Return) or len(params) != 1:
+    if len(params) != 1:
+        return None
+    # loop form:  for k, vals in CATEGORY_CODES.items(): if <p> in vals: return k   ;   return <CC member>
+    if len(body) == 2 and isinstance(body[0], ast.For) and isinstance(body[1], ast.Return) and not body[0].orelse:
+        lp = body[0]
+        it = lp.iter
+        ok_iter = isinstance(it, ast.Call) and isinstance(it.func, ast.Attribute) and it.func.attr == 'items' \
+            and isinstance(it.func.value, ast.Name) and it.func.value.id == 'CATEGORY_CODES' and not it.args
+        ok_tgt = isinstance(lp.target, ast.Tuple) and len(lp.target.elts) == 2 and all(isinstance(e, ast.Name) for e in lp.target.elts)
+        if ok_iter and ok_tgt and len(lp.body) == 1 and isinstance(lp.body[0], ast.If) and not lp.body[0].orelse \
+                and len(lp.body[0].body) == 1 and isinstance(lp.body[0].body[0], ast.Return):
+            k, vals = lp.target.elts[0].id, lp.target.elts[1].id
+            t = lp.body[0].test
+            ok_if = isinstance(t, ast.Compare) and len(t.ops) == 1 and isinstance(t.ops[0], ast.In) and isinstance(t.left, ast.Name) \
+                and t.left.id == params[0] and isinstance(t.comparators[0], ast.Name) and t.comparators[0].id == vals
+            rv = lp.body[0].body[0].value
+            if ok_if and isinstance(rv, ast.Name) and rv.id == k and body[1].value is not None:
+                try:
+                    d = Folder(repo, h.module).ev(body[1].value)
+                except Unfoldable:
+                    return None
+                if isinstance(d, FEnumMember):
+                    return h, d
+        return None
+    if len(body) != 1 or not isinstance(body[0], ast.Return):
         return None
     v = body[0].value
     if not (isinstance(v, ast.Call) and isinstance(v.func, ast.Name) and v.func.id == 'next' and len(v.args) == 2
@@ -802,6 +835,8 @@ class TokInterp(Interp):
                     self.unsupported('dict.%s' % fv[2], n)
             elif fv[0] == 'func':
                 outs += self.call_func(fv[1], n, s1)
+            elif fv[0] == 'nested':
+                outs += self.call_nested(fv[1], n, s1)
             elif fv[0] == 'bound' and fv[1][0] in ('ptok', 'tok', 'item', 'staleitem') and fv[2] in (
                     'endswith', 'startswith', 'isspace', 'isalpha', 'isdigit'):
                 # a test on the text of a token: not determined by the categories -- either outcome
@@ -1421,7 +1456,75 @@ class TokInterp(Interp):
         self.unsupported('comparison operator in %s' % norm(node)[:70], node)
 
     # ------------------------------------------------------------------ statements
+    def on_nested_def(self, n, st):
+        """a function defined inside a rule: remembered, and run in the rule's own frame when called (it reads and, with
+        `nonlocal`, writes the rule's locals)"""
+        if n.decorator_list or n.args.vararg or n.args.kwarg or n.args.kwonlyargs:
+            self.unsupported('nested function %s with decorators or star parameters' % n.name, n)
+        s = st.copy()
+        s.top.vars[n.name] = ('nested', n)
+        return [(NEXT, s)]
+
+    def st_Nonlocal(self, n, st):
+        return [(NEXT, st)]
+
+    def call_nested(self, fnode, n, st):
+        params = [a.arg for a in fnode.args.args]
+        defaults = dict(zip(params[len(params) - len(fnode.args.defaults):], fnode.args.defaults))
+        outs = []
+        if n.keywords and any(k.arg is None for k in n.keywords):
+            self.unsupported('** arguments to a nested function', n)
+        for vals, s1 in self.evs(list(n.args) + [k.value for k in n.keywords], st):
+            if isinstance(vals, Raised):
+                outs.append((vals, s1))
+                continue
+            bound = dict(zip(params, vals[:len(n.args)]))
+            for k, v in zip(n.keywords, vals[len(n.args):]):
+                bound[k.arg] = v
+            s2 = s1.copy()
+            for p in params:
+                if p not in bound:
+                    if p in defaults and isinstance(defaults[p], ast.Constant):
+                        bound[p] = ('const', defaults[p].value)
+                    else:
+                        self.unsupported('nested function %s called without %s' % (fnode.name, p), n)
+            # locals of the nested function that are not declared nonlocal live under a private prefix
+            nonloc = {x for st_ in ast.walk(fnode) if isinstance(st_, ast.Nonlocal) for x in st_.names}
+            stored = {x.id for x in ast.walk(fnode) if isinstance(x, ast.Name) and isinstance(x.ctx, ast.Store)} - nonloc
+            clash = [p for p in list(params) + sorted(stored) if p in s2.top.vars]
+            saved = {p: s2.top.vars[p] for p in clash}
+            for p, v in bound.items():
+                s2.top.vars[p] = v
+            self._nest_depth = getattr(self, '_nest_depth', 0) + 1
+            if self._nest_depth > 3:
+                self.unsupported('nested function recursion', n)
+            try:
+                for out, s3 in self.block(strip_doc(fnode.body), s2):
+                    if out == NEXT:
+                        rv = ('const', None)
+                    elif out[0] == 'return':
+                        rv = out[1] if out[1] is not None else ('const', None)
+                    elif out[0] == 'raise':
+                        outs.append((out[2] if len(out) > 2 else Raised(out[1]), s3))
+                        continue
+                    else:
+                        self.unsupported('break/continue leaves the nested function %s' % fnode.name, n)
+                    s4 = s3.copy()
+                    for p in list(params) + sorted(stored):
+                        s4.top.vars.pop(p, None)
+                    for p, v in saved.items():
+                        s4.top.vars[p] = v
+                    outs.append((rv, s4))
+            finally:
+                self._nest_depth -= 1
+        return outs
+
     def assign(self, target, val, st):
+        if isinstance(target, ast.Tuple) and val[0] == 'const' and isinstance(val[1], tuple) and len(val[1]) == len(target.elts):
+            val = ('tuple', tuple(self.lift(x) for x in val[1]))
+        if isinstance(target, ast.Tuple) and val[0] == 'pyseq' and val[1] and len(val[2]) == len(target.elts):
+            val = ('tuple', tuple(x if isinstance(x, tuple) and x and isinstance(x[0], str) and x[0] in ('const', 'tuple', 'cat', 'func')
+                                  else self.lift(x) for x in val[2]))
         if isinstance(target, ast.Name):
             s = st.copy()
             s.top.vars[target.id] = val
@@ -1454,7 +1557,7 @@ class TokInterp(Interp):
                 pos = ('cursor', val[1]) if val[0] == 'pos' else (val[1] if val[0] == 'tokpos' else ('other',))
                 s.top.vars[target.value.id] = ('tok', base[1]._replace(pos=pos))
                 return [s]
-        self.unsupported('assignment target %s' % norm(target), target)
+        self.unsupported('assignment target %s (value %s)' % (norm(target), str(val)[:80]), target)
 
     def on_for(self, n, st):
         outs_all = []
